@@ -11,6 +11,7 @@ from lib import extract
 from lib.facts import norm, direct_place, const_int, origins, place_fields
 from lib import tables
 
+INLINE = True      # crate-local helpers the rules do not know by name are inlined into their callers (lib/inline.py)
 EXPLANATION = (
     "Per analysed program (finite corpus: the repository's own macro-using test/bench targets and /verif/corpus, a crate "
     "written to contain every attribute form the property names). The unexpanded source is parsed with syn to enumerate "
